@@ -175,7 +175,9 @@ def _case_zhit(rng, tier, tie):
         span = log_max - log_min
         center, width = (log_max + log_min) / 2, max(2.0, float(rng.choice([0.6, 0.8, 1.0])) * span)
     else:
-        c.update(src="mock", spec=_mock_spec(rng), first="mock")
+        spec = _mock_spec(rng, ppd_choices=(2, 3) if tier == "quick" else (3, 4, 5), idents=MOCK_CDCS + ["CIRCUIT_1", "CIRCUIT_2", "CIRCUIT_5"])
+        spec["kw"].update(log_max_f=float(rng.choice([4.0, 5.0])), log_min_f=float(rng.choice([0.0, -1.0])) if tier == "thorough" else 0.0)
+        c.update(src="mock", spec=spec, first="mock")
         center, width = 1.5, 3.0
     cell = str(rng.choice(["aaa", "aaa", "aaa", "afa", "faa", "aaf"])) if tier == "thorough" else "aaa"
     opts = {
@@ -236,7 +238,9 @@ def _case_fit(rng, tier, tie):
 
 def _case_kkext(rng, tier, auto=False):
     c = {"kind": "kkauto" if auto else "kkext", "first": "mock"}
-    c["spec"] = _mock_spec(rng, ppd_choices=(5, 7, 10))
+    c["spec"] = _mock_spec(rng, ppd_choices=(4, 5) if tier == "quick" else (4, 5, 7, 10))
+    if c["spec"]["mock"].startswith("CIRCUIT") and tier == "quick":
+        c["spec"]["kw"].update(log_max_f=4.0, log_min_f=-1.0)
     test = str(rng.choice(LINEAR_TESTS))
     c["opts"] = {
         "test": test,
@@ -271,8 +275,8 @@ def _case_cnls(rng, tier, autolimit=False):
         "num_RCs": num_RCs,
         "num_F_ext_evaluations": 0,
         "log_F_ext": float(rng.choice([0.0, 0.0, 0.2, -0.2])),
-        "admittance": bool(rng.random() < 0.25),
-        "max_nfev": 100 if autolimit else int(rng.choice([0, 200])),
+        "admittance": bool(tier == "thorough" and rng.random() < 0.15),
+        "max_nfev": 0,
         "timeout": 600,
     }
     c["cell"] = f"cnls/{'auto' if autolimit else len(num_RCs)}/{c['opts']['admittance']}"
@@ -284,15 +288,17 @@ def _case_cnls(rng, tier, autolimit=False):
 def _case_kkext_cnls(rng, tier):
     """extension search driven by the cnls test: pool.map(_wrapper) whose tasks open the cnls pool themselves."""
     c = {"kind": "kkext-cnls", "first": "mock"}
-    c["spec"] = {"mock": MOCK_CDCS[0], "kw": {"noise": 0.05, "seed": int(rng.integers(0, 2**32)), "num_per_decade": 2, "log_max_f": 4.0, "log_min_f": 0.0}}
-    c["opts"] = {"test": "cnls", "num_F_ext_evaluations": 10, "max_nfev": 25, "timeout": 600, "admittance": False}
+    c["spec"] = {"mock": MOCK_CDCS[0], "kw": {"noise": 0.05, "seed": int(rng.integers(0, 2**32)), "num_per_decade": 2, "log_max_f": 4.0, "log_min_f": 1.0}}
+    c["opts"] = {"test": "cnls", "num_F_ext_evaluations": 10, "max_nfev": 0, "timeout": 600, "admittance": False}
     c["cell"] = "cnls/ext10"
     A = int(rng.integers(1, 2**31))
     c["runs"] = [
         {"tag": "ref", "P": 1, "sched": None, "gseed": A},
-        {"tag": "pool", "P": 2, "sched": {"mode": "none"}, "gseed": A},
-        {"tag": "sched", "P": 3, "sched": {"mode": "random", "salt": 5, "pre": 1.0, "max_ms": dict(MAX_MS)}, "gseed": A},
+        {"tag": "sched", "P": 4, "sched": {"mode": "random", "salt": 5, "pre": 1.0, "max_ms": dict(MAX_MS)}, "gseed": A},
     ]
+    if tier == "thorough":
+        c["runs"].append({"tag": "pool", "P": 3, "sched": {"mode": "none"}, "gseed": A})
+        c["runs"].append({"tag": "sched", "P": 8, "sched": {"mode": "reverse", "salt": 6, "pre": 0.0, "max_ms": dict(MAX_MS)}, "gseed": A})
     return c
 
 
@@ -361,6 +367,14 @@ def gen_cases(tier, seed):
         plan += [(_case_cnls, (True,)), (_case_kkext_cnls, ()), (_case_mock, ()), (_case_mock, ())]
     for fn, a in plan:
         add(fn, *a)
+    if tier == "quick":
+        # the runner deals cases round-robin over SHARDS shards: order them so that the estimated cost is balanced
+        cost = {"zhit": 12, "fit": 14, "kkext": 12, "cnls": 14, "kkext-cnls": 24, "mock": 1}
+        bins = [[] for _ in range(SHARDS)]
+        for c in sorted(cases, key=lambda c: -cost[c["kind"]]):
+            ok = [b for b in bins if len(b) < -(-len(cases) // SHARDS)]
+            min(ok, key=lambda b: sum(cost[x["kind"]] for x in b)).append(c)
+        cases = [b[i] for i in range(max(len(b) for b in bins)) for b in bins if i < len(b)]
     return cases
 
 
